@@ -71,5 +71,6 @@ func RunCases(c *Ctx, prop string, cases []Case, chunk, chunks int) {
 			}
 			c.Stats.Violate(v)
 		}
+		c.Flush()
 	}
 }
